@@ -30,6 +30,7 @@ func init() {
 		var cells []*scen.Cell
 		cells = append(cells, familyF1(th)...)
 		cells = append(cells, familyF3(th)...)
+		cells = append(cells, familyF3Pairs()...)
 		cells = append(cells, familyF4(th)...)
 		cells = append(cells, familyFName(th)...)
 		e.Rep.Rule("every function generated for families F1, F3, F4, F-name; oracle from the destination's go/types struct: (i) no path mentioned twice, (ii) no mentioned path a proper prefix of another, " +
